@@ -68,10 +68,10 @@ def model_c():
         K('U', 'A1', C): const(('n', 10.0)), K('U', 'A2', C): const(('b', True)),
         K('U', 'B1', C): op('+', cell('S', 'A1'), cell('U', 'A1', C)),
         K('S', 'B1'): fn('MAX', rng('U', 'A1:B1', C), cell('S', 'A2')),
-        K('S', 'B2'): op('-', cell('S', 'B1'), ['name', C, 'BASE']),
+        K('S', 'B2'): op('-', cell('S', 'B1'), ['name', B, 'BASE']),
         K('S', 'B3'): fn('MIN', rng('S', 'A1:A2'), cell('U', 'B1', C)),
     }
-    return {'cells': cells, 'arrays': {}, 'names': {'%s|BASE' % C: cell('U', 'A1', C)}, 'sheets': [[B, 'S'], [C, 'U']]}
+    return {'cells': cells, 'arrays': {}, 'names': {'%s|BASE' % B: cell('U', 'A1', C)}, 'sheets': [[B, 'S'], [C, 'U']]}
 
 
 MODELS = {'a': model_a, 'b': model_b, 'c': model_c}
